@@ -520,6 +520,85 @@ def _synth(kind, n, *rest):
 
 
 # ---------------------------------------------------------------------------
+# history family: programs that give the same names different meanings.  A
+# sequence is compiled in one process, in order (qv.checks.c09.judge_history);
+# spec = ['history', theme, [variant id, ...]].
+
+def _h_type(decl, first, last, extra=''):
+    """a record type `rec` (declared by `decl`) stored in shared, local,
+    array, parameter and STATIC variables, each followed by a scalar whose
+    slot depends on the record's size"""
+    return (decl +
+            'dim shared g as rec\ndim shared ga(1 to 2) as rec\ndim shared gz as integer\n'
+            'dim r as rec\ndim z as integer\ndim la(1) as rec\ndim w as integer\n'
+            f'r.{last} = 5\ng.{last} = 7\ngz = 1\nz = 9\nw = 2\n'
+            f'la(1).{first} = 1\nga(2).{last} = 2\n' + extra +
+            'show r\nprint z; w; gz\n'
+            'sub show (p as rec)\ndim q as rec\nstatic s as rec\ndim k as integer\n'
+            f'q.{last} = p.{last}\ns.{first} = 1\nk = 3\nend sub\n')
+
+
+HISTORY = {
+    'type': [
+        ('t1', _h_type('type rec\na as integer\nend type\n', 'a', 'a')),
+        ('t2', _h_type('type rec\na as integer\nb as long\nend type\n', 'a', 'b')),
+        ('t4', _h_type('type rec\na as integer\nb as long\nc as double\nd as string\nend type\n', 'a', 'c',
+                       'r.d = "x"\ng.d = "y"\n')),
+        ('tn', _h_type('type inner\nx as integer\ny as long\nend type\n'
+                       'type rec\na as inner\nb as inner\nc as integer\nend type\n', 'a.x', 'c', 'r.b.y = 4\n')),
+        ('tn1', _h_type('type inner\nx as integer\nend type\n'
+                        'type rec\na as inner\nc as integer\nend type\n', 'a.x', 'c')),
+    ],
+    'sub': [
+        ('s0', 'call work\nwork\nsub work\ndim a(1 to 3) as integer\ndim t as integer\na(3) = 1\nt = 2\nend sub\n'),
+        ('s1', 'dim v as integer\ncall work(v)\nwork 3\nsub work (x as integer)\ndim a(1 to 10) as long\n'
+               'dim t as integer\na(10) = x\nt = 2\nend sub\n'),
+        ('s3', 'dim v as integer\ndim n as string\ndim m(2) as long\ncall work(v, n, m())\n'
+               'sub work (x as integer, y as string, z() as long)\ndim t as integer\ndim a as double\n'
+               't = x\na = z(1)\ny = "q"\nend sub\n'),
+        ('sf', 'dim v as integer\nv = work%(4)\nfunction work%(x%)\ndim a(1 to 2) as integer\ndim t as integer\n'
+               'a(2) = x%\nt = 2\nwork% = t\nend function\n'),
+        ('sr', 'type rec\na as integer\nb as long\nend type\ndim v as rec\nwork v\n'
+               'sub work (x as rec)\ndim t as integer\ndim a as rec\nt = x.a\na.b = t\nend sub\n'),
+    ],
+    'glob': [
+        ('g1', 'dim shared g as integer\ndim shared h as integer\ng = 1\nh = 2\ntick\n'
+               'sub tick\nstatic s as integer\ns = s + 1\nh = s\nend sub\n'),
+        ('g2', 'dim shared g(1 to 5) as long\ndim shared h as integer\ng(5) = 1\nh = 2\ntick\n'
+               'sub tick\nstatic s(1 to 3) as integer\ns(3) = 1\nh = s(3)\nend sub\n'),
+        ('g3', 'dim shared g as string\ndim shared h as integer\ng = "a"\nh = 2\ntick\n'
+               'sub tick\nstatic s as double\ns = 1.5\nh = 3\nend sub\n'),
+        ('g4', 'dim shared h as integer\ndim shared g as double\ng = 1\nh = 2\ntick\n'
+               'sub tick\nstatic t as long\nstatic s as string\ns = "b"\nt = 1\nh = 4\nend sub\n'),
+    ],
+    'label': [
+        ('l1', 'on error goto fail\ngosub again\ngoto done\nagain: return\nfail: resume next\n'
+               'done: restore d1\nd1: data 1,2\nread q%\n'),
+        ('l2', 'x% = 1\nx% = x% + 1\nprint x%\non error goto fail\nd0: data 9\ngosub again\ngoto done\n'
+               'fail: resume next\nagain: x% = 2: return\nd1: data 1,2\ndone: restore d1\nread q%\nprint "more"\n'),
+        ('l3', 'done: x% = x% + 1\nif x% < 3 then goto done\nd1: data "z"\ngosub again\nend\n'
+               'again: restore d1: return\nfail: beep\n'),
+    ],
+}
+
+
+def history_specs():
+    out = []
+    for theme, variants in HISTORY.items():
+        ids = [v[0] for v in variants]
+        for n in (2, 3):
+            for seq in itertools.permutations(ids, n):
+                out.append(['history', theme, list(seq)])
+    return out
+
+
+def history_programs(spec):
+    """-> [(variant id, source, meta)] in compilation order"""
+    table = dict(HISTORY[spec[1]])
+    return [(v, table[v], {}) for v in spec[2]]
+
+
+# ---------------------------------------------------------------------------
 
 def build(spec):
     fam = spec[0]
